@@ -343,13 +343,15 @@ var specs = map[string]*CheckSpec{
 		MaxPaths:    func(tier string) int { return 200000 },
 	},
 	"C09": {
-		ID: "C09", Patterns: []string{cmdPkg, v2Pkg}, NeedHelper: true,
+		ID: "C09", Patterns: []string{cmdPkg, v2Pkg, v1Pkg}, NeedHelper: true,
 		Runs: []HarnessRun{commandRun("ZZ_C09", countShapes(cmdPkg, "ZZ_C09N"), harnessDesc(cmdPkg, "ZZ_C09Desc", "postings (source destination asset):"), []int{1, 40, 545}),
-			{Pkg: v2Pkg, Dir: "internal/api/v2", Mod: "ledger", Fn: "ZZ_C09Bulk", Shapes: rangeShapes(2), Cfg: cmdCfg, Desc: harnessDesc(v2Pkg, "ZZ_C09BulkDesc", ""), CanaryShapes: []int{0}}},
+			{Pkg: v2Pkg, Dir: "internal/api/v2", Mod: "ledger", Fn: "ZZ_C09Bulk", Shapes: rangeShapes(2), Cfg: cmdCfg, Desc: harnessDesc(v2Pkg, "ZZ_C09BulkDesc", ""), CanaryShapes: []int{0}},
+			{Pkg: v2Pkg, Dir: "internal/api/v2", Mod: "ledger", Fn: "ZZ_C09Http", Shapes: rangeShapes(2), Cfg: cmdCfg, Desc: harnessDesc(v2Pkg, "ZZ_C09HttpDesc", "v2"), CanaryShapes: []int{0}},
+			{Pkg: v1Pkg, Dir: "internal/api/v1", Mod: "ledger", Fn: "ZZ_C09Http", Shapes: rangeShapes(2), Cfg: cmdCfg, Desc: harnessDesc(v1Pkg, "ZZ_C09HttpDesc", "v1"), CanaryShapes: []int{0}}},
 		Bounds: func(tier string) map[string]any {
-			return map[string]any{"postings": "1 posting: all 32 (source,destination,asset) combinations over {world,a,b,c}x{USD/2,EUR}; 2 postings: all 512 combinations with the first over USD/2; 3 postings: 8 chain/repeat/fan patterns", "amounts_and_balances": "unbounded integers (SMT Int), equal/unequal amounts decided by forking on the de-duplication map", "bulk": "bulks of 2..3 posting-mode elements through v2.ProcessBulk: amounts symbolic (decimal text of an SMT Int in the JSON body), presence of metadata (absent / one entry / empty), reference and timestamp arbitrary per element", "outside": "the single-transaction HTTP handlers of v1/v2 (request plumbing); the claim starts at ProcessBulk for bulks and at Postings.Validate/TxToScriptData otherwise"}
+			return map[string]any{"postings": "1 posting: all 32 (source,destination,asset) combinations over {world,a,b,c}x{USD/2,EUR}; 2 postings: all 512 combinations with the first over USD/2; 3 postings: 8 chain/repeat/fan patterns", "amounts_and_balances": "unbounded integers (SMT Int), equal/unequal amounts decided by forking on the de-duplication map", "bulk": "bulks of 2..3 posting-mode elements through v2.ProcessBulk: amounts symbolic (decimal text of an SMT Int in the JSON body), presence of metadata (absent / one entry / empty), reference and timestamp arbitrary per element", "http": "v1 and v2 postTransaction with a posting-mode JSON body of 1..2 postings (amounts arbitrary integers inside the text; presence of metadata/reference/timestamp/Idempotency-Key arbitrary) against a recording backend: one engine call carrying exactly TxToScriptData of the body; v1 refuses negative amounts up front", "outside": "chi routing and middlewares in front of the handlers; script-mode bodies"}
 		},
-		Assumptions: append([]string{"ZZ_C09Bulk: backend.Ledger is a stub recording the RunScript each CreateTransaction call receives"}, cmdStubs...), Encoded: append([]string{"ledger.Postings.Validate", "v2.ProcessBulk", "ledger.(*TransactionRequest).ToRunScript", "ledger.TxToScriptData"}, cmdEncoded...),
+		Assumptions: append([]string{"ZZ_C09Bulk: backend.Ledger is a stub recording the RunScript each CreateTransaction call receives"}, cmdStubs...), Encoded: append([]string{"ledger.Postings.Validate", "v1.postTransaction", "v2.postTransaction", "v2.ProcessBulk", "ledger.(*TransactionRequest).ToRunScript", "ledger.TxToScriptData"}, cmdEncoded...),
 		Rule: "one job per posting pattern; amounts and opening balances symbolic; committed transaction and persisted log compared posting by posting with the request; acceptance compared with the in-order coverage reading",
 	},
 	"C10": {
